@@ -592,3 +592,18 @@ def step_oracle(c, real):
             bad.append(("C05", "fail-fast-context-not-cancelled", f"fail-fast: a failure was observed (step {k}) but the walk context is not cancelled"))
             return bad
     return bad
+
+
+def confirmed(fn, ctx, idx, *args):
+    """CLI scenarios depend on timing and on the machine: an oracle failure counts only if it shows up again when the scenario is
+    repeated in a fresh workspace. What does not repeat is kept in the evidence (`unconfirmed`, with the scenario's record) and never
+    becomes a VIOLATION line."""
+    r = fn(ctx, idx, *args)
+    if r.get("bad"):
+        r2 = fn(ctx, idx + 7000, *args)
+        sig2 = {x[0] for x in r2["bad"]}
+        r["unconfirmed"] = [x[0] for x in r["bad"] if x[0] not in sig2]
+        if r["unconfirmed"]:
+            r["unconfirmed_record"] = {k: (v[-3000:] if isinstance(v, str) else v) for k, v in r.items() if k in ("out", "out1", "out_tail", "stderr", "b1", "runs")}
+        r["bad"] = [x for x in r["bad"] if x[0] in sig2]
+    return r
